@@ -6,4 +6,5 @@ S=/tmp/pp-try
 mkdir -p $S; rm -rf $S/src $S/benches; cp -r /repo/src /repo/benches /repo/Cargo.toml /repo/Cargo.lock $S/ 2>/dev/null
 (cd $S && git init -q 2>/dev/null; patch -p1 -s < "$P") || { echo "patch failed"; exit 2; }
 HERE=$(cd "$(dirname "$0")/.." && pwd)
+export VERIF_EVIDENCE_DIR=/tmp/pp-evidence-scratch
 for c in "$@"; do "$HERE/check" $c --repo $S 2>&1 | grep -E "^(FINDING|C[0-9]+:|extract)" | cut -c1-${COLS:-260}; done
